@@ -123,15 +123,17 @@ func genC06(seed uint64, tier string) *Plan {
 	} else {
 		p.Cfg.GCMs = 1000 * 3600 * 1000
 	}
-	// explicit GC tasks
-	if r.Chance(0.85) {
+	// explicit GC tasks (never together with the background collectors: two
+	// cycles of the same collector running at once is not a supported use)
+	background := p.Cfg.GCMs < 1000*3600
+	if !background && r.Chance(0.85) {
 		var g []Op
 		for i := 0; i < 2+r.Intn(5); i++ {
 			g = append(g, Op{K: "sleep", A: 1 + r.Intn(2000)}, Op{K: "igc", A: r.Intn(2)})
 		}
 		p.Clients = append(p.Clients, g)
 	}
-	if r.Chance(0.85) {
+	if !background && r.Chance(0.85) {
 		var g []Op
 		for i := 0; i < 2+r.Intn(5); i++ {
 			g = append(g, Op{K: "sleep", A: 1 + r.Intn(2000)}, Op{K: "pgc", A: []int{0, 1, 50, 74, 85, 100}[r.Intn(6)]})
@@ -256,6 +258,7 @@ func runConc(p *Plan, tape *simrt.Tape, opt RunOpt) *RunOut {
 	})
 	d.fileProbes(fs)
 	out.addFS(fs)
+	out.FinalFS = fs
 	out.addProbes(d.Probes)
 	viol := cs.viol
 	if viol == nil && d.Viol != nil {
